@@ -78,6 +78,7 @@ let op_of s =
   let n x = nat_of_int (int_of_string x) in
   match String.split_on_char ',' s with
   | ["K"; i] -> [OKey (n i)]
+  | ["B"; i; _] -> [OKey (n i)]           (* a big block: an ordinary fresh object *)
   | ["H"; i] -> [OKey (n i)]              (* a placeholder reserving an address (layout family): an ordinary fresh object *)
   | ["C"; i; a; b] -> [OCons (n i, n a, n b)]
   | ["E"; i; k; v] -> [OEph (n i, n k, n v)]
